@@ -471,6 +471,27 @@ def _setup(name):
         for k, v in zip(POOL_NAMES, pool()):
             p.set_variable(k, v)
         p.on('callFunction', _count_listener)
+    elif name == 'debug':
+        # a parser constructed with debug=True (it prints what it meets - to a sink here): the record is what it is without it
+        common.load_repo()
+        import hotxlfp
+        import io
+        import sys
+        p = hotxlfp.Parser(debug=True)
+        for k, v in zip(POOL_NAMES, pool()):
+            p.set_variable(k, v)
+        p.set_function('ID', lambda *a: a[0] if a else None)
+        p.on('callCellValue', lambda cell, setter: setter(CELLS.get(cell.label)))
+        inner = p.parse
+
+        def quiet_parse(formula):
+            old = sys.stdout, sys.stderr
+            sys.stdout = sys.stderr = io.StringIO()
+            try:
+                return inner(formula)
+            finally:
+                sys.stdout, sys.stderr = old
+        p.parse = quiet_parse
     elif name == 'soup':
         p = _new_parser()
         for k, v in zip(POOL_NAMES, pool()):
@@ -1068,7 +1089,7 @@ def item(case, i):
         return ('host', case['where'], case['how']), case['items'][i]
     if k == 'subs':
         return ('subs', case['prog']), case['items'][i]
-    return 'soup', case['items'][i]
+    return case.get('setup', 'soup'), case['items'][i]
 
 
 def cost(case):
@@ -1624,6 +1645,15 @@ def cases(rng, ctx):
         tri = [(a, b, c) for a in edges[:12] + ['10^15'] for b in edges[:12] + ['10^15'] for c in edges[:12] + ['10^15']]
         items += ['%s(%s,%s,%s)' % ((name,) + t) for t in rng.sample(tri, min(len(tri), (40 if not thorough else 600) * scale))]
         out.append({'kind': 'strings', 'stream': 'fn-edge', 'items': items})
+
+    # ---- (c''') a parser constructed with debug=True: aggregates handed an error value (which they re-raise), raising and failing
+    # formulas, then the plain fall-backs once more - the record is well-formed and its code one of the nine, there as everywhere
+    dbg = ['SUM(LN(0),1)', 'MAX(SQRT(-1),2)', 'AVERAGE(1/0,1)', 'PRODUCT({1,2},ACOS(5))', 'COUNT(1,NA())', 'MIN(#REF!,1)', 'SUM(nosuch,1)',
+           '1+', '#FOO', 'NOSUCH(1)', 'SUM(', 'CONCATENATE(1/0,"a")', 'AND(1/0,TRUE)', 'ID(1/0)+1', 'LARGE({1,2},5)', 'SUM(A1,LN(0))']
+    for nm in rng.sample(names, min(len(names), 40 * scale)):
+        dbg += ['%s(LN(0))' % nm, '%s(1,SQRT(-1))' % nm, '%s({1,2},1/0)' % nm]
+    out.append({'kind': 'strings', 'stream': 'debug', 'setup': 'debug', 'items': dbg + ['1+', '#FOO', 'SUM(LN(0),1)', 'NOSUCH(1)']})
+    out.append({'kind': 'strings', 'stream': 'debug', 'items': ['1+', '#FOO', 'NOSUCH(1)', 'SUM(LN(0),1)', 'ID(1/0)+']})
 
     # ---- (c'') pattern arguments against texts built to make a backtracking matcher explode: many wildcards separated by a literal
     # that occurs many times in the text, and no match in the end (criteria functions, wildcard MATCH, text search)
